@@ -120,130 +120,6 @@ pub fn one_layer_ok() {
     assert!(ld(&L1.close_bad_meta) == 0);
 }
 
-/// A: one root span, k extra handles, optionally entered on thread 0 and/or 1; references released in a
-/// solver-chosen grouping; closes exactly once, exactly at the last release
-#[kani::proof]
-#[kani::unwind(4)]
-#[kani::stub(std::rt::thread_cleanup, noop)]
-#[kani::stub(core::fmt::write, fmt_write_stub)]
-#[kani::stub(std::collections::HashMap::clear, hm_clear)]
-fn c05_a_root_refcount() {
-    stack1!(st, true);
-    let s = root(st, any_level_rank());
-    let k = small();
-    let mut i = 0;
-    while i < k { let c = st.clone_span(&s); assert!(c == s); i += 1; }
-    let (e0, e1): (bool, bool) = (kani::any(), kani::any());
-    if e0 { v::set_thread(0); st.enter(&s); }
-    if e1 { v::set_thread(1); st.enter(&s); }
-    let exits_first: bool = kani::any();
-    let total = k as usize + 1 + e0 as usize + e1 as usize;
-    let mut released = 0usize;
-    if exits_first {
-        if e0 { v::set_thread(0); st.exit(&s); released += 1; assert!((closes() == 1) == (released == total)); }
-        if e1 { v::set_thread(1); st.exit(&s); released += 1; assert!((closes() == 1) == (released == total)); }
-    }
-    i = 0;
-    while i < k + 1 {
-        assert!(live(st, &s));
-        let closed = st.try_close(s.clone());
-        released += 1;
-        assert!(closed == (released == total));
-        assert!((closes() == 1) == (released == total));
-        i += 1;
-    }
-    if !exits_first {
-        if e1 { v::set_thread(1); assert!(live(st, &s)); st.exit(&s); released += 1; assert!((closes() == 1) == (released == total)); }
-        if e0 { v::set_thread(0); assert!(live(st, &s)); st.exit(&s); released += 1; assert!((closes() == 1) == (released == total)); }
-    }
-    assert!(released == total && closes() == 1);
-    assert!(!live(st, &s));
-    one_layer_ok();
-    kani::cover!(k == 2 && e0 && e1 && !exits_first);
-    kani::cover!(k == 0 && !e0 && !e1);
-    kani::cover!(e0 && exits_first);
-}
-
-/// B: parent + child (explicit parent), extra handles on both, either side released first
-#[kani::proof]
-#[kani::unwind(4)]
-#[kani::stub(std::rt::thread_cleanup, noop)]
-#[kani::stub(core::fmt::write, fmt_write_stub)]
-#[kani::stub(std::collections::HashMap::clear, hm_clear)]
-fn c05_b_parent_child() {
-    stack1!(st, true);
-    let p = root(st, any_level_rank());
-    let c = child(st, &p, any_level_rank());
-    assert!(p != c);
-    let (kp, kc) = (small(), small());
-    let mut i = 0;
-    while i < kp { st.clone_span(&p); i += 1; }
-    i = 0;
-    while i < kc { st.clone_span(&c); i += 1; }
-    let parent_first: bool = kani::any();
-    if parent_first {
-        i = 0;
-        while i < kp + 1 { assert!(!st.try_close(p.clone())); i += 1; }
-        // all parent handles gone: it must stay open (and readable) while its child lives
-        assert!(closes() == 0 && live(st, &p));
-        i = 0;
-        while i < kc + 1 {
-            let closed = st.try_close(c.clone());
-            assert!(closed == (i == kc));
-            i += 1;
-        }
-        assert!(closes() == 2);
-        assert!(closed_id(0) == c.into_u64() && closed_id(1) == p.into_u64());
-    } else {
-        i = 0;
-        while i < kc + 1 {
-            let closed = st.try_close(c.clone());
-            assert!(closed == (i == kc));
-            i += 1;
-        }
-        assert!(closes() == 1 && !live(st, &c) && live(st, &p));
-        i = 0;
-        while i < kp + 1 {
-            let closed = st.try_close(p.clone());
-            assert!(closed == (i == kp));
-            i += 1;
-        }
-        assert!(closes() == 2);
-        assert!(closed_id(0) == c.into_u64() && closed_id(1) == p.into_u64());
-    }
-    assert!(!live(st, &p) && !live(st, &c));
-    one_layer_ok();
-    kani::cover!(parent_first && kp == 2 && kc == 1);
-    kani::cover!(!parent_first && kc == 2);
-}
-
-/// C: contextual parent — the entered span becomes the parent and is kept alive by the child after it is
-/// exited and its handle dropped
-#[kani::proof]
-#[kani::unwind(4)]
-#[kani::stub(std::rt::thread_cleanup, noop)]
-#[kani::stub(core::fmt::write, fmt_write_stub)]
-#[kani::stub(std::collections::HashMap::clear, hm_clear)]
-fn c05_c_contextual_parent() {
-    stack1!(st, true);
-    let p = root(st, any_level_rank());
-    st.enter(&p);
-    let c = contextual(st, any_level_rank());
-    {
-        let cd = st.span(&c).unwrap();
-        assert!(cd.parent().map(|x| x.id()) == Some(p.clone()));
-    }
-    let exit_first: bool = kani::any();
-    if exit_first { st.exit(&p); assert!(!st.try_close(p.clone())); } else { assert!(!st.try_close(p.clone())); st.exit(&p); }
-    assert!(closes() == 0 && live(st, &p));
-    assert!(st.try_close(c.clone()));
-    assert!(closes() == 2);
-    assert!(closed_id(0) == c.into_u64() && closed_id(1) == p.into_u64());
-    one_layer_ok();
-    kani::cover!(exit_first);
-    kani::cover!(!exit_first);
-}
-
 /// D: chain of three; the leaf's last handle closes leaf, parent, grandparent in that order
 #[kani::proof]
 #[kani::unwind(5)]
@@ -309,17 +185,16 @@ fn c05_e_reuse_is_fresh() {
 #[kani::stub(std::collections::HashMap::clear, hm_clear)]
 fn c05_g_two_layers() {
     stack2!(st, false);
-    let m = sp_meta(any_level_rank());
+    let m = sp_meta(3);
     let vs = m.fields().value_set(&[]);
     let s = st.new_span(&Attributes::new_root(m, &vs));
-    let extra: bool = kani::any();
-    if extra { st.clone_span(&s); assert!(!st.try_close(s.clone())); }
+    st.clone_span(&s);
+    assert!(!st.try_close(s.clone()));
     assert!(closes() == 0);
     assert!(st.try_close(s.clone()));
     assert!(closes() == 1);
     both_layers_agree();
     assert!(gone(st, s.into_u64()));
-    kani::cover!(extra);
 }
 
 // ---- finding F2: closing through the *current default* instead of the span's own collector
